@@ -20,22 +20,23 @@ import (
 // HarnessSpec describes one harness function of a property.
 type HarnessSpec struct {
 	Func     string
-	Reach    []string                          // vacuity guard: labels some feasible path must hit
+	Reach    []string                           // vacuity guard: labels some feasible path must hit
 	Tune     func(c *sym.Config, thorough bool) // bounds / engine options
-	Vectors  int                               // concrete vectors for translator validation (0 = default)
-	NoNative bool                              // harness cannot run natively as is (stubbed environment)
-	Bounds   string                            // human-readable bounds (quick; thorough)
+	Vectors  int                                // concrete vectors for translator validation (0 = default)
+	NoNative bool                               // harness cannot run natively as is (stubbed environment)
+	Bounds   string                             // human-readable bounds (quick; thorough)
 }
 
 type PropSpec struct {
-	ID          string
-	Pkg         string // harness package pattern relative to /verif/harness
-	ReplayPkg   string // native replay main
-	Level       string
-	Harnesses   []HarnessSpec
-	Assumptions []string
-	Explanation string // for level "other"
-	Overlay     func() (map[string][]byte, error)
+	ID            string
+	Pkg           string // harness package pattern relative to /verif/harness
+	ReplayPkg     string // native replay main
+	Level         string
+	Harnesses     []HarnessSpec
+	Assumptions   []string
+	Explanation   string // for level "other"
+	Overlay       func() (map[string][]byte, error)
+	NoNativeBuild bool // every harness runs against a stubbed environment: no native binary is built
 }
 
 type replayFile struct {
@@ -293,6 +294,10 @@ func cmdCheck(args []string) int {
 	}
 	bch := make(chan buildRes, 1)
 	go func() {
+		if spec.NoNativeBuild {
+			bch <- buildRes{"", nil}
+			return
+		}
 		bin, err := buildNative(spec, workDir, overlayFile)
 		bch <- buildRes{bin, err}
 	}()
